@@ -1,0 +1,33 @@
+//go:build verif
+
+package dastard
+
+// Thin access to the per-record analysis (AnalyzeData, SetProjectorsBasis) for the out-of-tree
+// verification harness.  Compiled only with `-tags verif`; adds no behaviour to the normal build.
+
+import (
+	"gonum.org/v1/gonum/mat"
+)
+
+// VerifAnalyze runs the real AnalyzeData on one record of a fresh DataStreamProcessor configured for
+// (npre, nsamp).  When prows > 0 the projectors (prows x pcols, row major) and the basis
+// (brows x bcols, row major) are first handed to the real SetProjectorsBasis; setErr reports whether
+// it rejected them (analysis then runs without projectors, as after a rejected request).
+func VerifAnalyze(npre, nsamp int, signed bool, data []RawType,
+	prows, pcols int, proj []float64, brows, bcols int, basis []float64) (rec VerifRecord, setErr bool) {
+	dsp := NewDataStreamProcessor(0, nil, npre, nsamp)
+	if prows > 0 {
+		p := mat.NewDense(prows, pcols, proj)
+		b := mat.NewDense(brows, bcols, basis)
+		setErr = dsp.SetProjectorsBasis(p, b, "verif") != nil
+	}
+	r := &DataRecord{data: data, presamples: npre, signed: signed}
+	dsp.AnalyzeData([]*DataRecord{r})
+	return VerifFromRecord(r), setErr
+}
+
+// VerifConfigureProjectorsBases hands row-major projectors (nbases x nsamp) and basis (nsamp x nbases)
+// to the real AnySource.ConfigureProjectorsBases of a prepared scripted source.
+func (vs *VerifSource) VerifConfigureProjectorsBases(channelIndex, nbases, nsamp int, proj, basis []float64) error {
+	return vs.ConfigureProjectorsBases(channelIndex, mat.NewDense(nbases, nsamp, proj), mat.NewDense(nsamp, nbases, basis), "verif")
+}
